@@ -3,6 +3,8 @@ import TempestVerif.Lemmas.Maha
 import Mathlib.LinearAlgebra.Matrix.PosDef
 import Mathlib.Algebra.Order.Star.Real
 import Mathlib.LinearAlgebra.Matrix.NonsingularInverse
+import TempestVerif.Lemmas.ScReal
+import Mathlib.Algebra.BigOperators.Fin
 import Mathlib.Tactic
 /-
   C19 — the Student-t proposal fit (`tempest/student.py: fit_mvstud`, `tempest/modes.py`) is well-posed and
@@ -11,7 +13,8 @@ import Mathlib.Tactic
   Objects: exact real arithmetic, Mathlib matrices (`Matrix (Fin d) (Fin d) ℝ`), data `x : Fin n → Fin d → ℝ`.
   The definitions below (`delta`, `weight`, `sigmaNext`, `muNext`, `step`, `loop`, `init`, `fit`) are the
   matrix form of the executable list twin `Model/Student.lean` (same formulas, same control flow; the twin is
-  what the correspondence check runs against the Python).  `np.linalg.solve(Σ, v)` is `Σ⁻¹ v`.
+  what the correspondence check runs against the Python; `C19_twin_step` proves that one iteration of the twin at `ℝ`
+  IS the matrix iteration, given that its Gauss–Jordan inverse is the inverse).  `np.linalg.solve(Σ, v)` is `Σ⁻¹ v`.
 
   Uninterpreted, with the hypotheses used stated where they are used:
   * `optNu : (Fin n → ℝ) → Option ℝ` — `opt_nu` (scipy `psi` + `bisect` on `[1e-300, 1e6]`, `none` = `np.inf`);
@@ -519,6 +522,124 @@ theorem C19_dof_fallback_iff (fb : ℝ) (t : Dof ℝ) :
     applyFallback fb t = .fin fb ↔ (t.isFinite = false ∨ t = .fin fb) := by
   cases t <;> simp [applyFallback, Dof.isFinite]
 
+
+
+/-! ### link to the executable twin `Model/Student.lean` (evaluated at `ℝ`)
+
+The list twin that the correspondence check runs against the Python computes, on the list form of the data,
+exactly the matrix iteration the theorems above are about — provided its Gauss–Jordan inverse is the inverse. -/
+
+section Twin
+open Model.Student
+
+theorem zipWith_ofFn {α β γ : Type} (g : α → β → γ) {m : ℕ} (f : Fin m → α) (h : Fin m → β) :
+    List.zipWith g (List.ofFn f) (List.ofFn h) = List.ofFn fun i => g (f i) (h i) := by
+  apply List.ext_getElem <;> simp
+
+theorem sc_sum_ofFn {m : ℕ} (f : Fin m → ℝ) : Sc.sum (List.ofFn f) = ∑ i, f i := by
+  unfold Sc.sum
+  have : ∀ (l : List ℝ) (a : ℝ), l.foldl Sc.add a = a + l.sum := by
+    intro l; induction l with
+    | nil => intro a; simp
+    | cons x xs ih => intro a; simp [ih, add_assoc]
+  rw [this, List.sum_ofFn]; simp
+
+theorem dot_ofFn {m : ℕ} (f g : Fin m → ℝ) : dot (List.ofFn f) (List.ofFn g) = ∑ i, f i * g i := by
+  unfold dot vmul; rw [zipWith_ofFn, sc_sum_ofFn]; simp
+
+theorem foldl_vadd_ofFn {m k : ℕ} (f : Fin k → Fin m → ℝ) (g : Fin m → ℝ) :
+    (List.ofFn fun j => List.ofFn (f j)).foldl vadd (List.ofFn g) = List.ofFn fun i => g i + ∑ j, f j i := by
+  induction k generalizing g with
+  | zero => simp
+  | succ k ih =>
+    rw [List.ofFn_succ, List.foldl_cons]
+    unfold vadd
+    rw [zipWith_ofFn]
+    have := ih (fun j => f j.succ) (fun i => g i + f 0 i)
+    unfold vadd at this
+    simp only [ScReal.add_def]
+    rw [this]
+    congr 1; funext i
+    rw [Fin.sum_univ_succ]; ring
+
+/-- list forms -/
+def colsOf (x : Fin n → Fin d → ℝ) : List (List ℝ) := List.ofFn fun a => List.ofFn fun i => x i a
+def vecOf {m : ℕ} (v : Fin m → ℝ) : List ℝ := List.ofFn v
+def matOf (M : Matrix (Fin d) (Fin d) ℝ) : List (List ℝ) := List.ofFn fun a => List.ofFn fun b => M a b
+
+theorem twin_diffs (x : Fin n → Fin d → ℝ) (μ : Fin d → ℝ) :
+    diffs (colsOf x) (vecOf μ) = List.ofFn fun a => List.ofFn fun i => x i a - μ a := by
+  unfold diffs colsOf vecOf
+  rw [zipWith_ofFn]
+  simp [List.map_ofFn, Function.comp_def]
+
+theorem twin_lincomb {k m : ℕ} (c : Fin k → ℝ) (V : Fin k → Fin m → ℝ) :
+    lincomb m (List.ofFn c) (List.ofFn fun j => List.ofFn (V j)) = List.ofFn fun i => ∑ j, c j * V j i := by
+  unfold lincomb
+  rw [zipWith_ofFn]
+  have h0 : List.replicate m (Sc.zero : ℝ) = List.ofFn fun _ : Fin m => (0 : ℝ) := by
+    apply List.ext_getElem <;> simp
+  have h1 : (fun j => Model.Student.smul (c j) (List.ofFn (V j))) = fun j => List.ofFn fun i => c j * V j i := by
+    funext j; unfold Model.Student.smul; simp [List.map_ofFn, Function.comp_def]
+  rw [h0, h1, foldl_vadd_ofFn]
+  simp
+
+theorem twin_deltas (x : Fin n → Fin d → ℝ) (μ : Fin d → ℝ) (S : Matrix (Fin d) (Fin d) ℝ) :
+    deltas n (diffs (colsOf x) (vecOf μ)) (matOf S⁻¹) = List.ofFn (delta x μ S) := by
+  rw [twin_diffs]
+  unfold deltas matOf
+  simp only [List.map_ofFn, Function.comp_def, twin_lincomb]
+  rw [zipWith_ofFn]
+  have h0 : List.replicate n (Sc.zero : ℝ) = List.ofFn fun _ : Fin n => (0 : ℝ) := by
+    apply List.ext_getElem <;> simp
+  have h1 : (fun a : Fin d => vmul (List.ofFn fun i => x i a - μ a) (List.ofFn fun i => ∑ j, S⁻¹ a j * (x i j - μ j)))
+      = fun a => List.ofFn fun i => (x i a - μ a) * ∑ j, S⁻¹ a j * (x i j - μ j) := by
+    funext a; unfold vmul; rw [zipWith_ofFn]; simp
+  rw [h0, h1, foldl_vadd_ofFn]
+  congr 1; funext i
+  simp [delta, maha, dotProduct, mulVec]
+
+theorem twin_weights (ν : ℝ) (δ : Fin n → ℝ) :
+    weights d ν (List.ofFn δ) = List.ofFn fun i => weight d ν (δ i) := by
+  unfold weights weight; simp [List.map_ofFn, Function.comp_def]
+
+theorem twin_update (x : Fin n → Fin d → ℝ) (μ : Fin d → ℝ) (w : Fin n → ℝ) :
+    Model.Student.update n (colsOf x) (diffs (colsOf x) (vecOf μ)) (List.ofFn w)
+      = (⟨vecOf (muNext x w), matOf (sigmaNext x μ w)⟩ : Model.Student.State ℝ) := by
+  rw [twin_diffs]
+  unfold Model.Student.update colsOf vecOf matOf
+  simp only [List.map_ofFn, Function.comp_def, vmul, zipWith_ofFn, dot, sc_sum_ofFn, ScReal.mul_def,
+    ScReal.div_def, ScReal.ofNat_def]
+  congr 1
+  · congr 1; funext a; rw [muNext_apply]
+  · congr 1; funext a; congr 1; funext b
+    simp [sigmaNext, Matrix.sum_apply, vecMulVec_apply, Finset.mul_sum, div_eq_inv_mul, mul_assoc]
+
+
+/-- **link to the executable twin.**  One iteration of `Model.Student` at `ℝ` on the list form of the data is the
+    matrix iteration `update` of this file, whenever the twin's Gauss–Jordan inverse of `Σ` is `Σ⁻¹`
+    (the counterpart of trusting `np.linalg.solve`). -/
+theorem C19_twin_step (x : Fin n → Fin d → ℝ) (s : St d) (ν : ℝ)
+    (hinv : Model.Student.inv (matOf s.sigma) = some (matOf s.sigma⁻¹)) :
+    Model.Student.step n (colsOf x) ⟨vecOf s.mu, matOf s.sigma⟩ ν
+      = some ⟨vecOf (update x s ν).mu, matOf (update x s ν).sigma⟩ := by
+  unfold Model.Student.step stateDeltas
+  simp only [hinv, Option.map_some, twin_deltas]
+  have hl : (colsOf x).length = d := by simp [colsOf]
+  rw [hl, twin_weights, twin_update]
+  rfl
+
+/-- the hypothesis of `C19_twin_step` is satisfiable: the twin inverts a `2 × 2` scale matrix exactly -/
+example : Model.Student.inv (matOf (!![2, 1; 1, 2] : Matrix (Fin 2) (Fin 2) ℝ))
+    = some (matOf (!![2, 1; 1, 2] : Matrix (Fin 2) (Fin 2) ℝ)⁻¹) := by
+  have h : (!![2, 1; 1, 2] : Matrix (Fin 2) (Fin 2) ℝ)⁻¹ = !![2 / 3, -1 / 3; -1 / 3, 2 / 3] := by
+    apply Matrix.inv_eq_right_inv
+    ext i j; fin_cases i <;> fin_cases j <;> simp <;> norm_num
+  rw [h]
+  simp [Model.Student.inv, matOf, gj, gjStep, identRow, List.zipIdx, List.range, List.range.loop]
+  norm_num
+
+end Twin
 
 /-! ### non-vacuity: the hypotheses of the main theorems hold on concrete values -/
 
